@@ -194,6 +194,11 @@ func c14Cases() []c14Case {
 		c14Case{desc: "style-object:zero-values", tpl: `<p :style="{opacity: o, zIndex: z, flexGrow: 0}">t</p>`, data: map[string]any{"o": 0, "z": 0.0}, want: map[string]string{"style": ""}, style: map[string]string{"opacity": "0", "z-index": "0", "flex-grow": "0"}},
 		c14Case{desc: "style-object:zero-overrides-static", tpl: `<p style="opacity: 1; margin: 2px" :style="{opacity: o}">t</p>`, data: map[string]any{"o": 0}, want: map[string]string{"style": ""}, style: map[string]string{"opacity": "0", "margin": "2px"}},
 		c14Case{desc: "style-object:zero-typed", tpl: `<p :style="{order: a, top: b}">t</p>`, data: map[string]any{"a": int8(0), "b": uint(0)}, want: map[string]string{"style": ""}, style: map[string]string{"order": "0", "top": "0"}},
+		// the value of an object entry may itself contain a colon (a conditional expression, a URL): the key ends at the FIRST colon
+		c14Case{desc: "style-object:ternary-value", tpl: `<p style="padding: 4px" :style="{color: dark ? 'white' : 'black', fontSize: '12px'}">t</p>`, data: map[string]any{"dark": true}, want: map[string]string{"style": ""}, style: map[string]string{"padding": "4px", "color": "white", "font-size": "12px"}},
+		c14Case{desc: "style-object:url-value", tpl: `<p style="color: red" :style="{backgroundImage: 'url(https://cdn.example.com/a.png)'}">t</p>`, data: map[string]any{}, want: map[string]string{"style": ""}, style: map[string]string{"color": "red", "background-image": "url(https://cdn.example.com/a.png)"}},
+		c14Case{desc: "class-object:ternary-value", tpl: `<p class="btn" :class="{active: kind == 'primary' ? true : false, round: r}">t</p>`, data: map[string]any{"kind": "primary", "r": true}, want: map[string]string{"class": "btn active round"}},
+		c14Case{desc: "class-object:ternary-value-false", tpl: `<p class="btn" :class="{active: kind == 'primary' ? true : false, round: r}">t</p>`, data: map[string]any{"kind": "other", "r": true}, want: map[string]string{"class": "btn round"}},
 		c14Case{desc: "style-object:hyphen-key", tpl: `<p :style="{'font-size': s}">t</p>`, data: map[string]any{"s": "9px"}, want: map[string]string{"style": ""}, style: map[string]string{"font-size": "9px"}},
 		c14Case{desc: "style-bound-string", tpl: `<p style="color: red" :style="s">t</p>`, data: map[string]any{"s": "color: green; top: 1px"}, want: map[string]string{"style": ""}, style: map[string]string{"color": "green", "top": "1px"}},
 		c14Case{desc: "style-bound-nonstring", tpl: `<p style="color: red" :style="n">t</p>`, data: map[string]any{"n": 5}, want: map[string]string{"style": ""}, style: map[string]string{"color": "red"}},
